@@ -4,6 +4,7 @@
 mod calendar;
 mod cli;
 mod convert;
+mod envrun;
 mod flow;
 mod gitrepo;
 mod order;
@@ -49,6 +50,7 @@ fn main() {
         ("replay", "cli") => proc::replay(rest),
         ("record", "cli") => proc::record(rest),
         ("measure", "cli") => proc::measure(rest),
+        ("record", "env") => envrun::record(rest),
         ("replay", "render") => render::replay(rest),
         ("record", "render") => render::record(rest),
         ("replay", "zerv") => zmodel::replay(rest),
